@@ -478,7 +478,9 @@ def oracle(case):
     fname = where[0].split('/')[-1]
     if case['path'] == 'load' and r['error'] is None and where[2] in NUMERIC_COLS.get(fname, []) and where[2] >= 0:
         written = r.get('written_field')
-        if written is not None and not valid_number(written, where[2] == 0) and not (written == '' and where[2] >= 2):
+        # a text starting with # in the FIRST column makes the whole line a comment: nothing to report
+        if written is not None and not valid_number(written, where[2] == 0) and not (written == '' and where[2] >= 2) \
+                and not (where[2] == 0 and written.startswith('#')):
             return {'signature': 'invalid-number-accepted', 'detail': f'{tag} ({written[:60]!r} is no number) loaded without error'}
     if where[3] and case['path'] == 'load' and r['error'] is None:
         from_table = case['pclass'] == 'name'
